@@ -77,7 +77,7 @@ Definition check_C12 (op : bytes) (input impl : arg) : arg :=
         else
           let fl := arg_Z (arg_nth 0 ref) in
           let alt := AL [AZ (if (fl <? 0)%Z then 0 else fl)%Z; arg_nth 1 ref; arg_nth 2 ref] in
-          if sig_attrs_ok kc (map attr_of_arg attrs) [alt] then AL []
+          if sig_attrs_ok false kc (map attr_of_arg attrs) [alt] then AL []
           else AS "usage / creation date / expiry do not equal what the signature and the key creation time encode"
     | _ => if simple then AS "well-formed signature packet rejected" else AL []
     end
